@@ -60,6 +60,67 @@ CNext == CSubmit \/ CFlush \/ CGetCompleted
 CSpec == CInit /\ [][CNext]_cvars
 
 -----------------------------------------------------------------------------
+(* Asynchronous burst API (lib/include/mb_mgr_burst_async.h): submit_burst_and_check hands every job of    *)
+(* the burst to submit_new_burst_job, in order; then it gives back the leading completed jobs, at most as   *)
+(* many as it was given; if none is complete and the ring wrapped (earliest_job == next_job) it falls back  *)
+(* to FLUSH_BURST of as many jobs.  FLUSH_BURST(max) runs complete_burst_job on the oldest min(queue, max). *)
+BurstMax == 2
+RECURSIVE CSubmitAll(_, _, _, _)
+CSubmitAll(inf, acc, j, lastj) ==
+    IF j > lastj \/ ~ acc.ok THEN acc ELSE CSubmitAll(inf, SubmitNew(inf, acc.ms, j), j + 1, lastj)
+RECURSIVE CCompleteAll(_, _, _, _, _)
+CCompleteAll(inf, acc, pend, i, n) ==
+    IF i > n \/ ~ acc.ok THEN acc ELSE CCompleteAll(inf, CompleteJob(inf, acc.ms, pend[i], Fuel), pend, i + 1, n)
+\* number of leading completed jobs among the first cnt of pend
+LeadRun(m, pend, cnt) ==
+    LET c == IF cnt < Len(pend) THEN cnt ELSE Len(pend)
+        un == { i \in 1 .. c : ~ Completed(m, pend[i]) }
+    IN IF un = {} THEN c ELSE (CHOOSE i \in un : \A x \in un : i <= x) - 1
+\* what a burst submission of the suites sus / length pairs lps (sequences of length k) does
+BurstOutcome(k, sus, lps) ==
+    LET ids == [i \in 1 .. k |-> nextId + i - 1]
+        inf == [j \in 1 .. MaxJobs |->
+                  IF j >= nextId /\ j < nextId + k
+                  THEN LET i == j - nextId + 1 IN
+                       [cu |-> sus[i].cu, hu |-> sus[i].hu, hc |-> sus[i].hc, len |-> lps[i][1], hlen |-> lps[i][2]]
+                  ELSE info[j]]
+        r1 == CSubmitAll(inf, [ms |-> ms, ok |-> TRUE], nextId, nextId + k - 1)
+        pend == queue \o ids
+        lead == Completed(r1.ms, Head(pend))
+        wrapped == Len(pend) = N - 1
+        fb == r1.ok /\ wrapped /\ ~ lead
+        r2 == IF fb THEN CCompleteAll(inf, r1, pend, 1, k) ELSE r1
+        r == IF r2.ok THEN LeadRun(r2.ms, pend, k) ELSE 0
+    IN [inf |-> inf, ms |-> r2.ms, ok |-> r2.ok, pend |-> pend, r |-> r, fallback |-> fb]
+CSubmitBurstK(k) ==
+    /\ ok /\ nextId + k - 1 <= MaxJobs
+    /\ Len(queue) + k <= N - 1                    \* the slots GET_NEXT_BURST handed out
+    /\ \E sus \in [1 .. k -> Suites], lps \in [1 .. k -> LenPairs] :
+         LET o == BurstOutcome(k, sus, lps) IN
+         /\ info' = o.inf /\ ms' = o.ms /\ ok' = o.ok
+         /\ queue' = SubSeq(o.pend, o.r + 1, Len(o.pend))
+         /\ returned' = returned \o SubSeq(o.pend, 1, o.r)
+    /\ nextId' = nextId + k /\ UNCHANGED sync
+FlushOutcome(mx) ==
+    LET n == IF Len(queue) < mx THEN Len(queue) ELSE mx
+        r == CCompleteAll(info, [ms |-> ms, ok |-> TRUE], queue, 1, n)
+    IN [ms |-> r.ms, ok |-> r.ok, n |-> IF r.ok THEN n ELSE 0]
+CFlushBurstN(mx) ==
+    /\ ok
+    /\ LET o == FlushOutcome(mx) IN
+         /\ ms' = o.ms /\ ok' = o.ok
+         /\ queue' = SubSeq(queue, o.n + 1, Len(queue))
+         /\ returned' = returned \o SubSeq(queue, 1, o.n)
+    /\ UNCHANGED <<info, nextId, sync>>
+CSubmitBurst == \E k \in 1 .. BurstMax : CSubmitBurstK(k)
+CFlushBurst == \E mx \in 0 .. N - 1 : CFlushBurstN(mx)
+\* job API and burst API mixed on one manager
+CSpecBurst == CInit /\ [][CNext \/ CSubmitBurst \/ CFlushBurst]_cvars
+\* FLUSH_BURST(max) on a manager holding at least max jobs returns max jobs; a burst never returns more than it was given
+BurstExact == [][\A mx \in 0 .. N - 1 : CFlushBurstN(mx) /\ ok' =>
+                   Len(returned') - Len(returned) = (IF Len(queue) < mx THEN Len(queue) ELSE mx)]_cvars
+
+-----------------------------------------------------------------------------
 (* Synchronous cipher burst (lib/include/mb_mgr_burst.h, submit_aes_cbc_burst_enc): k caller-owned jobs     *)
 (* go straight into the SAME out-of-order unit the asynchronous API uses; whatever the unit hands back is    *)
 (* marked COMPLETED and counted; if fewer than k came back the unit is flushed until it is empty.            *)
